@@ -361,7 +361,7 @@ def gen_configs(rng, quick, n_maf, n_coup):
             else:
                 iv = INTERVALS[int(rng.integers(0, len(INTERVALS)))]
                 t = dict(kind="rqs", knots=int(rng.integers(3, 6)), interval=list(iv) if isinstance(iv, tuple) else iv,
-                         min_derivative=[1e-3, 1e-2][int(rng.integers(0, 2))], softmax_adjust=[1e-2, 0.0, 1.0][int(rng.integers(0, 3))])
+                         min_derivative=[1e-3, 1e-2][int(rng.integers(0, 2))], softmax_adjust=[1e-2, 1e-3, 1.0][int(rng.integers(0, 3))])  # not 0.0: with conditioner-sized logits the float knots then COINCIDE (bin height 0, 0/0 = NaN at the interval end; sweep seed 2) - parameters outside the statement (knots strictly increasing), DESIGN section 2 observations
             cfg = dict(kind=kind, dim=dim, cond=[None, 2][(i + (kind == "coup")) % 2], width=int(rng.integers(3, 9)), depth=i % 3,
                        act="tanh" if i % 5 == 3 else "relu", t=t)
             if kind == "coup":
